@@ -26,6 +26,9 @@ func (w *Worker) unop(instr *ssa.UnOp, x Value) Value {
 	case token.SUB:
 		switch x := x.(type) {
 		case *term.Term:
+			if isIntT(x) {
+				return w.fits(w.TF.INeg(x), instr.X.Type(), "negation")
+			}
 			return w.TF.BVNeg(x)
 		case FloatV:
 			return -x
@@ -70,6 +73,11 @@ func (w *Worker) binop(op token.Token, xt, yt types.Type, x, y Value) Value {
 	}
 	if p, ok := y.(Poison); ok {
 		return p
+	}
+	if xa, ok := x.(*term.Term); ok {
+		if ya, ok := y.(*term.Term); ok && (isIntT(xa) || isIntT(ya)) {
+			return w.intBinop(op, xt, yt, xa, ya)
+		}
 	}
 	switch op {
 	case token.EQL:
@@ -338,6 +346,9 @@ func (w *Worker) conv(dst, src types.Type, x Value) Value {
 	}
 	switch xv := x.(type) {
 	case *term.Term:
+		if isIntT(xv) {
+			return w.intConv(dst, xv)
+		}
 		if dw, _, ok := intInfo(du); ok && dw > 0 {
 			_, ssigned, _ := intInfo(su)
 			return tf.Resize(xv, dw, ssigned)
@@ -839,9 +850,13 @@ func (w *Worker) callBuiltin(caller *frame, fn *ssa.Builtin, args []Value) Value
 			switch r := res.(type) {
 			case *term.Term:
 				at := a.(*term.Term)
-				_, signed, _ := intInfo(fn.Type().(*types.Signature).Params().At(0).Type())
+				pt := fn.Type().(*types.Signature).Params().At(0).Type()
+				_, signed, _ := intInfo(pt)
 				var lt *term.Term
-				if signed {
+				if isIntT(at) || isIntT(r) {
+					at, r = w.toInt(at, pt), w.toInt(r, pt)
+					lt = tf.IBin(term.OpILt, at, r)
+				} else if signed {
 					lt = tf.Slt(at, r)
 				} else {
 					lt = tf.Ult(at, r)
